@@ -37,7 +37,21 @@ ASSUMPTIONS = [
     "line numbers are those of the formula source as generated (formula.source keeps the layout)",
     "a None result is detected after the formula returned: the raising element is listed with line 0 (documented)",
 ]
-SIGNATURES = {}
+def sig_shared_exception_instance(case, failure):
+    """KF-C17-3: one exception OBJECT is raised more than once within an evaluation and an earlier raise was handled
+    by a formula: the nodes rolled back for the handled raise cannot be told from those of the escaping one.  The
+    case arms the 'same instance every time' fault kind, and the traceback is right when every raise gets a fresh
+    exception object instead (counterfactual run)."""
+    import json
+    if failure.get("oracle") != "traceback":
+        return False
+    if not any(op[0] == "arm" and op[2] == "SharedValueError" for op in case["ops"]):
+        return False
+    fresh = json.loads(json.dumps(case).replace('"SharedValueError"', '"ValueError"'))
+    return run_case(fresh).failure is None
+
+
+SIGNATURES = {"shared_exception_instance": sig_shared_exception_instance}
 
 
 def plan(tier):
